@@ -124,3 +124,8 @@ FINDINGS += [
 FINDINGS += [
  F("C17", "C17 shplonk: claimed values not bound to gamma (overlapping opening sets)", "420bc96", "shplonk BatchOpen/BatchVerify derived the folding challenge gamma from the points and digests only; when a point belongs to two opening sets the false values y0 = f0(x)+d, y1 = f1(x)-d/gamma (chosen after reading gamma) verified without any trapdoor (7 curves; reported by the round-2 C17 seeding agent as a side observation on the clean tree)", "C17 shplonk bn254 ... mut=overlap i=0 j=0 m=<d>   (Go 1 before the fix; specification 0)", "ecc/*/shplonk/shplonk.go deriveChallenge, BatchOpen, BatchVerify"),
 ]
+
+FINDINGS += [
+ F("C11", "C11 kzg FoldProof / BatchVerifySinglePoint on the empty batch", "a88cea6", "FoldProof / BatchVerifySinglePoint panicked on an empty batch (gammai[0].SetOne() on an empty slice) while BatchVerifyMultiPoints returns ErrZeroNbDigests", "C11 batch1 bn254 <tau> <z> <H> <v> - -   (Go panic before the repair; model follows it: C11_batchSingle_empty)", "ecc/*/kzg/kzg.go FoldProof"),
+ F("C07", "C07 Encoder.Encode hides a write error of an inner vector", "67f33d2", "Encoder.Encode of [][]fr.Element / [][][]fr.Element overwrote err in the loop over the inner vectors: a failed write of any inner vector but the last returned nil for a truncated stream (counterpart of the Decoder defect e71aab4)", "C07 senc <curve> frss with a writer failing inside the first inner vector", "ecc/*/marshal.go encode / encodeRaw"),
+]
